@@ -68,7 +68,7 @@ def run_c20(tier, seed):
     t0 = time.time()
     common.build_harness()
     v = Verdict("C20")
-    cfg = "SPECIFICATION Spec\nINVARIANTS StartsOnlyIfSame IdenticalAlwaysReopens\nCHECK_DEADLOCK FALSE\n"
+    cfg = "SPECIFICATION Spec\nINVARIANTS StartsOnlyIfSame IdenticalAlwaysReopens IntactOnlyUnderCreator\nCHECK_DEADLOCK FALSE\n"
     cases, r = tlc_cases("ConfigGate.tla", cfg, "configgate", None)
     if r["violated"]:
         v.report("model:" + r["violated"], "ConfigGate.tla violates " + r["violated"], {"tlc": common.tlc_tail(r, 60)})
